@@ -5,12 +5,98 @@ import os
 
 VERIF = os.path.dirname(os.path.dirname(os.path.abspath(__file__)))
 
+PBT = "property-based testing (Hypothesis @given, 16 sharded processes, seeded by VERIF_SEED)"
 CHECKS = {
     "C01": dict(
-        technique="property-based testing (Hypothesis) against an independent 50-digit reference interpreter with exact-Fraction track and running error bound",
+        technique=PBT + " against an independent 50-digit mpmath reference interpreter with exact-Fraction track and running error bound",
         text="Generated expression trees/DAGs x points are evaluated by the library and by an independent mpmath/Fraction interpreter; values must agree within 8x a first-order rounding bound and exactly on the exact (integer/dyadic) track; bare-number evaluation must equal Point evaluation bit for bit. Exploration: held on everything generated, no absence claim.",
         note="Trusts mpmath at 50 digits, IEEE-754 doubles, libm within a few ulp; cases whose exact intermediates leave [1e-100,1e100] or sit within 4 eps of a domain boundary are skipped and counted.",
         ref="DESIGN.md section 4 C01"),
+    "C02": dict(
+        technique=PBT + " with boundary-injection and masking-context generators; oracle = reference interpreter's exact / with-margin domain decision",
+        text="Besides random trees, constrained nodes are shifted exactly onto / 2^-k inside / 2^-k outside their boundary at the generated point and undefined sub-terms are placed in 14 masking contexts; at() must raise DomainError exactly when the reference decides 'undefined' and return a finite real when it decides 'defined'.",
+        note="Undecidable cases (inexact value within 4 eps of a boundary) and out-of-range cases are skipped and counted; reference interpreter trusted.",
+        ref="DESIGN.md section 4 C02"),
+    "C03": dict(
+        technique=PBT + " against an independent mpmath forward-mode AD with error bound, self-checked by 260-digit central differences; exact Fraction dual numbers on the polynomial fragment",
+        text="Partial(e,v).at and Derivative(e).at (late) are compared with the true partial from a separately written dual-number interpreter; absent variables must give 0; on the polynomial fragment with a proven bit budget the result must be exact.",
+        note="Reference AD trusted (cross-checked against central differences and a reverse sweep each run); tolerance 8x running bound; ill-conditioned and out-of-range cases skipped and counted.",
+        ref="DESIGN.md section 4 C03"),
+    "C04": dict(
+        technique=PBT + " over DAG-heavy generators; oracle = reference AD per variable cross-checked with a reference reverse sweep",
+        text="LocatedDifferential(e,p).component(v) and Differential(e).at(p).component(v) for every variable at once (repeated variables, shared sub-expression objects, products with exact-zero factors) against the true gradient; exact on the polynomial fragment.",
+        note="As C03; reverse multipliers restricted to [1e-150,1e150].",
+        ref="DESIGN.md section 4 C04"),
+    "C05": dict(
+        technique=PBT + "; oracle = reference AD at generated domain points, second derivative by definition (central difference of the reference first derivative), exact polynomial-identity testing at generated rational points",
+        text="Every as_expression() route: result is an Expression with no foreign variable, defined and equal to the true partial wherever the original is defined, differentiable once more with the true second-order partial; rational-function fragment compared exactly as rational functions at 8 generated rational points.",
+        note="KF1 failures attributed by suppressing exactly the unsound rule instance in-process; folded-constant rounding within 4 eps of the result's own boundary is excused.",
+        ref="DESIGN.md section 4 C05"),
+    "C06": dict(
+        technique=PBT + "; differential oracle between all 14 numeric routes and between early/late as_expression()",
+        text="All routes (Partial/Derivative/Differential/LocatedDifferential, early/late, after as_expression, variable as object or name) must agree in outcome class and, within summed rounding bounds, in value, inside and outside the domain; Partial/Derivative early and late as_expression() ==; Differential(e).component(v) == Partial(e,v); Differential(e).at(p) == LocatedDifferential(e,p).",
+        note="Range/undecided cases skipped; KF1 attributed by rule suppression; structural equality of Differential components is not required (DESIGN.md 5.3).",
+        ref="DESIGN.md section 4 C06"),
+    "C07": dict(
+        technique=PBT + " dominated by masking-context and boundary-injection generators; differential oracle against Expression.at at reference-decided points",
+        text="Every numeric derivative route raises DomainError iff at() does, at points where the reference's domain decision is exact or has margin and agrees with at().",
+        note="at() itself is C02's subject; KF1 and folded-constant rounding excuses as in C05.",
+        ref="DESIGN.md section 4 C07"),
+    "C08": dict(
+        technique=PBT + " with one template per rewrite rule; metamorphic oracle on EVERY rewrite step (50-digit values, domain preservation, exact Fraction identity on the rational fragment); thorough tier adds atheris coverage-guided fuzzing of the same property",
+        text="The harness drives _take_reduction_step itself and checks every step, the normal-form pass and end-to-end _normalize() (incl. budget-exhausting 300-900 node inputs): defined input point => defined, equal-valued output.",
+        note="Uses the private stepping entry points the repository's tests use; KF1 steps identified by their redex (root of even power, both even).",
+        ref="DESIGN.md section 4 C08"),
+    "C09": dict(
+        technique="model-based stateful testing (Hypothesis RuleBasedStateMachine); oracle = the same operation on a never-used, unshared deep copy",
+        text="Histories of 10-80 operations over pools of expressions sharing sub-expression objects, persistent derivative objects, returned expressions, failing calls; after every operation the answer must be bit-identical to a fresh copy's.",
+        note="Fresh copy replays only route-determining history of a derivative object; KF2 (shape of budget-exhausted results) compared by value only.",
+        ref="DESIGN.md section 4 C09"),
+    "C10": dict(
+        technique="model-based stateful testing (Hypothesis RuleBasedStateMachine); invariant = creation-time snapshots of every pooled object after every step",
+        text="After every operation every pooled expression, point and derivative object must still equal, print as, hash as and evaluate like a fresh copy of its creation-time model.",
+        note="Structure is read through the private child attributes.",
+        ref="DESIGN.md section 4 C10"),
+    "C11": dict(
+        technique="exhaustive small-scope enumeration (depth-3 skeletons over all constructors) + " + PBT + "; invariant over the rewrite trace",
+        text="From every enumerated/generated input the step trace never repeats a form, stays within s^2+10s+50 steps and 3s+10 nodes, ends in a form on which no rule fires, and inputs of <= 20 nodes never trigger the library's step-budget warning.",
+        note="Quick tier enumerates a 1/16 slice of binary-parent skeletons (all others completely); thorough enumerates all ~470k.",
+        ref="DESIGN.md section 4 C11"),
+    "C12": dict(
+        technique=PBT + " over pairs/triples incl. one-change siblings; oracle = independently written canonical-model equality",
+        text="== / != / hash / set / dict behaviour of expressions, points and derivative objects against structural equality; equivalence laws; foreign objects never equal and never raise.",
+        note="Finite numeric content.",
+        ref="DESIGN.md section 4 C12"),
+    "C13": dict(
+        technique=PBT + "; round-trip oracle eval(repr(o)) == o, injectivity on one-change siblings",
+        text="repr/str of expressions, points and derivative objects evaluate back (public names only) to an equal object with the same structure; unequal siblings print differently; derivative objects print as their constructor call.",
+        note="Point names restricted to NFKC-stable non-keyword identifiers.",
+        ref="DESIGN.md section 4 C13"),
+    "C14": dict(
+        technique=PBT + " over legal-name alphabets and supplied-coordinate subsets; oracle = model variable set",
+        text="CoordinateMissing never when all occurring variables are supplied (all routes, simplified outputs); no value when one is missing; bare number / Derivative accepted iff <= 1 variable; every legal name usable as coordinate.",
+        note="Any exception counts as 'no value' when a coordinate is missing.",
+        ref="DESIGN.md section 4 C14"),
+    "C15": dict(
+        technique=PBT + "; oracle = model of the constructor call, object identity of operands",
+        text="Operators build exactly the named constructors holding the operand objects, integral exponents give NthPower with int n, foreign operands and illegal exponents raise.",
+        note="bool exponents unspecified, not asserted.",
+        ref="DESIGN.md section 4 C15"),
+    "C16": dict(
+        technique=PBT + " over arguments from well inside to well outside the documented ranges; oracle = independently written spec predicate",
+        text="Constructors raise iff the spec predicate says ill-formed; on success n/base/name/value/operands are reported back as given (n as int).",
+        note="Name predicate verified equal to regex \\w over all code points.",
+        ref="DESIGN.md section 4 C16"),
+    "C17": dict(
+        technique=PBT + " with exception bucketing by (type, innermost library frame); thorough tier adds atheris coverage-guided fuzzing of the same property",
+        text="Every API route on range-filtered cases (inside/outside/on boundaries, missing coordinates, exact-zero operands) returns a finite real / Expression or raises DomainError / CoordinateMissing.",
+        note="OverflowError/MemoryError on out-of-range intermediates counted as range.",
+        ref="DESIGN.md section 4 C17"),
+    "C18": dict(
+        technique=PBT + " with a cross-process differential oracle: persistent worker processes under distinct PYTHONHASHSEED values, permuted coordinate and variable-creation orders",
+        text="The same battery of evaluations, derivative routes and simplifications must answer byte-identically in 4 processes per case (48 distinct hash seeds per run).",
+        note="Covers the hash seeds actually run.",
+        ref="DESIGN.md section 4 C18"),
 }
 
 NOT_YET = {}
